@@ -138,6 +138,18 @@ Theorem raw_input_methods_asis_refuted :
 Proof. split; vm_compute; reflexivity. Qed.
 Print Assumptions raw_input_methods_asis_refuted.
 
+(* the code before fix: bf22940 reported success for Add(Key, ...) with a key content that carries no private key
+   material — no importer ran, so no session was ever looked up — for ANY token: never issued and on a wallet never
+   opened, closed, expired.  Repaired: the session is looked up (ErrWalletLocked without one), a foreign live token is
+   refused by checkAuth, the own live token passes *)
+Theorem add_key_without_material_asis_refuted :
+  all_admitted_own AsIs init ([WCreate 1; WNew 1; WOp 0%nat 900 KAddKeyEmpty]) = false /\
+  snd (run Fixed init (witness_setup ++ [WOp 0%nat 900 KAddKeyEmpty; WOp 0%nat 1 KAddKeyEmpty; WOp 0%nat 0 KAddKeyEmpty;
+                                         WClose 0%nat; WOp 0%nat 0 KAddKeyEmpty]))
+  = [RDone; RDone; RDone; RDone; RTok 0; RTok 1; RLocked; RBadToken; RDone; RBool true; RLocked].
+Proof. split; vm_compute; reflexivity. Qed.
+Print Assumptions add_key_without_material_asis_refuted.
+
 (* KNOWN FINDING (design level: one key store for all profiles).  FULL isolation of keys would say: the answer to
    a key import through profile u is the answer u would get if the key rows of all other profiles did not exist.
    Refuted on the faithful model: profile 2 is told "already exists" for an id that only profile 1 holds. *)
